@@ -28,7 +28,7 @@ UNIT = dict(
         dict(kind="prelude", file="engine_read.rs"),
         dict(kind="model", file="cursor_hydrate_model.rs"),
         dict(kind="region", file=W, within=FN, start="let mut ib = pos.cur_block_idx as usize;",
-             end="BlockStateTracker::set_checkpointed_true(info.chain[ib].id as usize);\n                        }", include_end=True,
+             end="\n                    }\n                }\n            }\n        }\n\n        // enqueue deletion checks",
              sig="fn hydrate_cursor(info: &mut ColReaderInfo, pos: &BlockPos, g: &mut CkptH)",
              rules=RULES,
              loops={0: dict(kind="for", n_loops=1, expect=r"set_checkpointed_true\(info\.chain\[i\]",
